@@ -1,6 +1,6 @@
 (* C06 - Unreal 2 replies decode strings and lists without loss or addition. *)
 From GD Require Import Base.Prelude Model.Strings Model.StrOps Model.Buffer Model.Unreal2Str Model.Net Model.Valve Model.Unreal2 Spec.Unreal2Spec.
-From GD Require Import Proofs.BufferLemmas Proofs.Msafe Proofs.Unreal2StrProofs Proofs.Unreal2Total Proofs.Unreal2Lists Proofs.Unreal2Accum.
+From GD Require Import Proofs.BufferLemmas Proofs.Msafe Proofs.Unreal2StrProofs Proofs.Unreal2Total Proofs.Unreal2Lists Proofs.Unreal2Accum Proofs.Unreal2Query.
 
 (* latin1: for EVERY length byte below 0x80 and every content (text outside the
    control range, colour codes with any components but 1b, optional terminating
@@ -84,6 +84,26 @@ Theorem c06_rules_accumulate : forall (rest : list (list (wire_string * wire_str
               = (Ok (fold_left (fun a l => expected_pairs l a) rest acc), mknet (tl u) t f sn cur tr').
 Proof. exact rules_accumulate. Qed.
 Print Assumptions c06_rules_accumulate.
+
+(* the whole query: server info, mutators and rules over all their datagrams (ended by silence), the password flag
+   taken from the GamePassword rule, the players over all their datagrams until the announced number is reached.
+   wf_u2: numbers are u32, strings are well-formed wire strings of either encoding, at least one datagram of rules,
+   no empty datagram of players; sizes_ok: every datagram within the 1024-byte receive. *)
+Theorem c06_wf_u2_means : forall st,
+  wf_u2 st <-> (wf_info st
+                /\ Forall (Forall (fun kv => ws_ok (fst kv) /\ ws_ok (snd kv))) (us_pairs st) /\ us_pairs st <> []
+                /\ Forall (Forall player_ok) (us_players st) /\ Forall (fun x => x <> []) (us_players st)).
+Proof. intros; reflexivity. Qed.
+Print Assumptions c06_wf_u2_means.
+Theorem c06_info_datagram : forall st, wf_info st -> with_headers 0 (enc_u2_info st) parse_u2_info = Ok (info_of st).
+Proof. exact info_datagram_decodes. Qed.
+Print Assumptions c06_info_datagram.
+Theorem c06_query_decoded_completely : forall port st g, wf_u2 st -> sizes_ok st -> ug_mr g <> Skip -> ug_players g <> Skip ->
+  fst (u2_query port (Some g) None (net_init (u2_script st g) [] [])) = Ok (u2_expected st g).
+Proof. exact u2_query_roundtrip. Qed.
+Print Assumptions c06_query_decoded_completely.
+Example c06_ex_query_hyps : wf_u2 ex_u2 /\ sizes_ok ex_u2.
+Proof. exact ex_u2_ok. Qed.
 
 Theorem c06_u2_total : forall port g t u tc sf, settings_ok t -> safe (fst (u2_query port g t (net_init u tc sf))).
 Proof. exact u2_total. Qed.
